@@ -3,6 +3,7 @@
 Only one rewrite is applied to the repo's source (no repo edits are needed for it):
 
   logger.<level>(...)  /  frontend_logger.<level>(...)   as an expression statement   ->   pass
+  <obj>.tracer.trace(...)  (debug trace helper, logging only)              ->   pass
 
 Reason: every f-string on an object goes through CrossHair's `deep_realize`, which copies object
 graphs and concretises symbolic values (engine.py logs f"{increment_time=}").  This is the cut
@@ -29,6 +30,11 @@ class _Strip(ast.NodeTransformer):
         v = node.value
         if (isinstance(v, ast.Call) and isinstance(v.func, ast.Attribute) and v.func.attr in _LEVELS
                 and isinstance(v.func.value, ast.Name) and v.func.value.id in _LOGGER_NAMES):
+            stats["stripped"] += 1
+            return ast.copy_location(ast.Pass(), node)
+        # <x>.tracer.trace(f"...")  (openpectus.lang.exec.tracer.Tracer: a debug-logging helper, disabled by default)
+        if (isinstance(v, ast.Call) and isinstance(v.func, ast.Attribute) and v.func.attr == "trace"
+                and isinstance(v.func.value, ast.Attribute) and v.func.value.attr == "tracer"):
             stats["stripped"] += 1
             return ast.copy_location(ast.Pass(), node)
         return node
